@@ -66,6 +66,7 @@ class Ctx:
 
     def violated(self, rule, instance, where, construct, message, **facts):
         """``construct`` identifies the offending code by normalised text (never a line number)."""
+        message = message if len(message) <= 700 else message[:700] + " ...[truncated]"
         key = "%s|%s|%s" % (rule, instance, " ".join(norm(construct).split()))
         rec = {"rule": rule, "instance": instance, "status": "violated", "where": where,
                "construct": short(construct, 200), "message": message, "key": key,
